@@ -3,7 +3,7 @@
 # demo passes without the patch, patch applies and builds, baseline suite still passes, demo fails with the patch.
 # On success copies the material to /verif/seeded/CNN-x/ with meta.json.
 export GOFLAGS=-mod=mod GOPROXY=off GOSUMDB=off GOTOOLCHAIN=local
-ID="$1"; V="$2"; WT="/tmp/wt-$ID"; M="$WT/mutation/$V"
+ID="$1"; V="$2"; WT="${3:-/tmp/wt-$ID}"; M="$WT/mutation/$V"
 cd "$WT" || exit 2
 git checkout -q -- . ; git clean -q -fd -e mutation
 run_demo() {
@@ -11,12 +11,28 @@ run_demo() {
     (cd "$WT" && timeout 900 go run "./mutation/$V/demo") > "$M/.out" 2>&1; return $?
   fi
   local tf; tf=$(cd "$M" && find . -name '*_test.go' | head -1)
-  local rel; rel=$(dirname "${tf#./}"); rel="${rel#_demo/}"; rel="${rel#_demo}"
-  [ -z "$rel" -o "$rel" = "." ] && rel="css/selector"
-  cp "$M/$tf" "$WT/$rel/"
-  (cd "$WT" && timeout 900 go test -vet=off -count=1 -run 'Demo|C[0-9][0-9][ab]' "./$rel/") > "$M/.out" 2>&1; local rc=$?
-  rm -f "$WT/$rel/$(basename $tf)"
-  echo "$rel" > "$M/.pkg"
+  local pk; pk=$(grep -m1 '^package ' "$M/$tf" | awk '{print $2}')
+  local rel=""
+  case "$pk" in
+    *_test|demo|main) rel="" ;;
+    selector) rel="css/selector" ;; parser) rel="css/parser" ;; validation) rel="css/validation" ;;
+    counters) rel="css/counters" ;; properties) rel="css/properties" ;;
+    svg) rel="svg" ;; utils) rel="utils" ;; matrix) rel="matrix" ;; text) rel="text" ;;
+    boxes) rel="html/boxes" ;; tree) rel="html/tree" ;; layout) rel="html/layout" ;; document) rel="html/document" ;;
+    *) rel="" ;;
+  esac
+  local rc
+  if [ -z "$rel" ]; then
+    # external test package: run in place
+    local dir; dir=$(dirname "${tf#./}")
+    (cd "$WT" && timeout 900 go test -vet=off -count=1 "./mutation/$V/$dir/") > "$M/.out" 2>&1; rc=$?
+    echo "in-place:$dir" > "$M/.pkg"
+  else
+    cp "$M/$tf" "$WT/$rel/zz_seeded_demo_test.go"
+    (cd "$WT" && timeout 900 go test -vet=off -count=1 -run 'Demo|C[0-9][0-9]|Mut' "./$rel/") > "$M/.out" 2>&1; rc=$?
+    rm -f "$WT/$rel/zz_seeded_demo_test.go"
+    echo "$rel" > "$M/.pkg"
+  fi
   return $rc
 }
 run_demo; before=$?
@@ -39,7 +55,7 @@ meta={"property":id_,"variant":v,"source":"independent sub-agent given only the 
  "patch":"patch.diff","demo":"demo_files/ (go run ./mutation/%s/demo from the worktree root)"%v if not pkg else "demo_files/ (test file copied into %s, go test -run Demo)"%pkg,
  "needs_to_manifest":"see README.md (sub-agent's description)",
  "confirmed":{"demo_passes_without_patch":True,"patch_applies_and_builds":True,"baseline_263_tests_pass_with_patch":True,"demo_fails_with_patch":True,
-   "how":"scripts/verify_seeded.sh %s %s in scratch worktree /tmp/wt-%s"%(id_,v,id_)}}
+   "how":"scripts/verify_seeded.sh %s %s in a scratch git worktree of /repo"%(id_,v)}}
 json.dump(meta,open(d+'/meta.json','w'),indent=1)
 PY
   echo "$ID-$V KEPT"
